@@ -23,10 +23,10 @@ TRUSTED = ["pyexpat as reference XML reader on the implementation side; the Lean
            "covers character data, predefined entities and character references only"]
 
 ALPHA = ["&", "<", ">", '"', "'", ";", "#", "a", "m", "p", "l", "t", "g", "x", "1", "\t", "\n", "\r", " ",
-         "\U0001d11e"]
+         "\U0001d11e", "%"]
 FRAGS = ["&amp;", "&lt;", "&gt;", "&quot;", "&apos;", "&#65;", "&#x41;", "&", ";", "<", ">", '"', "'", "amp;",
          "&am", "lt;", "]]>", "<![CDATA[", "\t", "\n", "\r", "\r\n", " ", "  ", "a", "b", "é", "€", "\U0001d11e",
-         "퟿", "", "�", "--", "<!--", "?>", "&&", "&amp;amp;", "x"]
+         "퟿", "", "�", "--", "<!--", "?>", "&&", "&amp;amp;", "x", "%", "%s", "%%", "%d", "%(a)s"]
 SPECIAL = set("&<>\"'\t\n\r")
 
 ENT = {"&amp;": "&", "&lt;": "<", "&gt;": ">", "&quot;": '"', "&apos;": "'"}
@@ -241,6 +241,33 @@ def standalone_qualified(s):
     return res
 
 
+def read_after_write(s):
+    """Serializing does not change the tree: text and attribute values read back from the objects after plain() /
+    str() are still s, a second serialization is the same as the first, and a Document serialized again after an
+    edit shows the edit."""
+    from suds.sax.element import Element
+    from suds.sax.document import Document
+    out = []
+    for first in ("plain", "str"):
+        e = Element("a")
+        c = Element("b")
+        c.setText(s)
+        c.set("k", s)
+        e.append(c)
+        one = getattr(e, first)()
+        if str(c.getText() or "") != s or str(c.get("k") or "") != s:
+            out.append("%s() changed the value held by the tree: %r / %r" % (first, c.getText(), c.get("k")))
+        if e.plain() != Element.plain(e) or getattr(e, first)() != one:
+            out.append("%s() twice gives different output" % first)
+        d = Document(e)
+        d.str(), d.plain()
+        c.setText("edited")
+        for form in ("str", "plain"):
+            if "edited" not in getattr(d, form)():
+                out.append("Document.%s() after an edit still shows the old tree" % form)
+    return out
+
+
 class Paths:
     def __init__(self):
         w = wsdlkit.wsdl_doc(SCHEMA, "f", "fResponse")
@@ -303,6 +330,10 @@ def check_string(ctx, paths, s, model, deep):
         if att is not None and att != s:
             ctx.fail("attribute value not recovered (%s)" % path, inp, att, s, direction="request",
                      position="attr", path=path)
+    ctx.case(("read-after-write", s), nontrivial)
+    for problem in read_after_write(s):
+        ctx.fail("serializing a tree changed it (or a later serialization)", inp, problem, "unchanged tree",
+                 direction="tree", position="text", path="read-after-write")
     for path, (txt, att) in standalone(s, via_text_api=True).items():
         ctx.case(("tree-text-api", path, s), nontrivial)
         if txt != s:
